@@ -92,6 +92,8 @@ def regular_ish_polygon(rng, m):
         6: [(1, 0), (2, 0), (3, 1), (2, 2), (1, 2), (0, 1)],
         7: [(1, 0), (2, 0), (3, 1), (3, 2), (2, 3), (1, 3), (0, 1)],
         8: [(1, 0), (2, 0), (3, 1), (3, 2), (2, 3), (1, 3), (0, 2), (0, 1)],
+        9: [(2, 0), (3, 1), (3, 3), (2, 5), (0, 6), (-2, 5), (-3, 3), (-2, 1), (0, 0)],
+        12: [(2, 0), (4, 1), (5, 3), (5, 5), (4, 7), (2, 8), (0, 8), (-2, 7), (-3, 5), (-3, 3), (-2, 1), (0, 0)],
         10: [(1, 0), (3, 0), (4, 1), (5, 3), (4, 5), (3, 6), (1, 6), (0, 5), (-1, 3), (0, 1)],
     }
     for _ in range(100):
@@ -100,9 +102,9 @@ def regular_ish_polygon(rng, m):
         v = rdir(rng, 2)
         if not nz(cross(u, v)):
             continue
-        s = rng.choice((F(1, 2), F(1), F(1))) if m < 10 else F(1, 2)
+        s = rng.choice((F(1, 2), F(1), F(1))) if m < 9 else F(1, 2)
         d = ("PG", tuple(add(p, add(mul(u, s * a), mul(v, s * b))) for a, b in shapes[m]))
-        if ok_coords(d, 8, 16 if m == 10 else 12):
+        if ok_coords(d, 8, 16 if m >= 9 else 12):
             return d
     return rand_polygon(rng)
 
@@ -290,6 +292,10 @@ def rand_flat(rng, kind):
 
 def rand_obj(rng, kind, small=False):
     if kind == "PG":
+        if rng.random() < 0.08:
+            pg = regular_ish_polygon(rng, rng.choice((8, 9, 10, 12)))      # many-sided polygons (fast paths keyed on the vertex count)
+            if pg is not None and len(pg[1]) >= 8:
+                return pg
         return rand_polygon(rng) if rng.random() < 0.6 else regular_ish_polygon(rng, rng.randint(3, 8))
     if kind == "PH":
         return rand_polyhedron(rng, small)
@@ -568,6 +574,10 @@ def flat_pair(rng, ka, kb):
         pp = slab_plane_pair(rng)
         if pp is not None:
             return pp, "parallel-planes/offsets-minus1-and-minus2"
+    if ka in ("P", "L", "H", "S") and kb in ("L", "H", "S") and rng.random() < 0.05:
+        x = slab_direction_pair(rng, ka, kb)
+        if x is not None:
+            return x, "hash-alike-directions"
     return _flat_pair(rng, ka, kb)
 
 
@@ -1081,3 +1091,25 @@ def cyclic_polygon(rng):
     out.sort(key=key)
     d = ("PG", tuple(out))
     return d if ok_coords(d, 8, 16) else None
+
+
+def slab_direction_pair(rng, ka, kb):
+    """two 1-D objects through one point whose direction vectors differ only in a coordinate -1 against -2 (others in {0,1}):
+    NOT parallel, but the two Vectors hash alike in CPython; for ka == "P": the point at offset d2 from the support of a line
+    with direction d1 (not on it)"""
+    c = rng.randrange(3)
+    u, w = rng.choice(((0, 1), (1, 0), (1, 1), (0, 0)))
+    d1, d2 = slab_pt(c, -1, u, w), slab_pt(c, -2, u, w)
+    if rng.random() < 0.3:
+        d1, d2 = slab_pt(c, -1, -2, w), slab_pt(c, -2, -1, w)
+    if rng.random() < 0.5:
+        d1, d2 = d2, d1
+    o = rpt(rng, 3, (1, 2))
+
+    def mk(kind, d):
+        if kind == "S":
+            return ("S", o, add(o, d)) if rng.random() < 0.5 else ("S", sub(o, d), add(o, d))
+        return (kind, o, d)
+    b = mk(kb, d1)
+    a = ("P", add(o, d2)) if ka == "P" else mk(ka, d2)
+    return (a, b) if ok_coords(a) and ok_coords(b) else None
